@@ -1436,6 +1436,15 @@ def c20(tier):
     client_replay(v, "C20", behs, "local-tree-histories(paths)", {"C20", "C12", "C02"})
     behs = client_behaviours(v, "InStraySpec", 7 if not thorough else 8, 1, "paths")
     client_replay(v, "C20", behs, "inbound-qos2-with-stray-acks(paths)", {"C20", "C12", "C02"})
+    # many inbound QoS 2 exchanges open at once (the queue of incoming exchanges grows while its head has moved)
+    depth = 120 if not thorough else 200
+    cfg = CLIENT_CFG % dict(spec="InManySpec", depth=depth, maxreq=1, dev="FALSE", emit="EmitMany", view="")
+    r = core.run_tlc("MCClient", cfg, workers=8, timeout=900, simulate=3 if not thorough else 30, depth=depth + 3, tlc_seed=core.seed())
+    v.tlc("InManySpec(simulation)", r)
+    behs = core.behaviours(r.lines)
+    if not behs:
+        raise Infra("InManySpec simulation produced no behaviours")
+    client_replay(v, "C20", behs, "many-inbound-exchanges(simulation)", {"C20", "C12", "C02"})
     v.cov["rule"] = ("Client.Connect against CONNACK code 0..5, session present, invalid code, wrong packet, truncated, closed: nil exactly for code 0, else the code, no library "
                      "goroutine left. Client specification, dispatch: Subscribe requests with overlapping filters (a/#, a/+), f/# against f, rejected filters (0x80), Unsubscribe, "
                      "inbound PUBLISH QoS 0..2 with DUP repeats, matching and non-matching topics; per step the invocations of every request's callback are compared with the "
